@@ -108,42 +108,92 @@ Proof.
   - intros H. inversion H. auto.
 Qed.
 
-(* closed form of what a deposit / withdrawal of per-token totals [tot] does to the ledger *)
-Definition D (h : Z) (tot : Z -> Z) (k : key) : Z :=
-  let '(hh, kind, t) := k in
-  (if (hh =? h) && (kind =? Base) then tot t else 0) +
-  (if (hh =? ModX) && (kind =? Bridge) then tot t else 0) +
-  (if (hh =? Supply) && (kind =? Bridge) then tot t else 0) +
-  (if (hh =? Supply) && (kind =? Base) then tot t else 0).
+(* closed form of what a deposit / withdrawal of per-token totals [tot] does to the ledger, for every token kind:
+   the holder's base coin, plus a module part that depends on the kind only *)
+Definition Cm (kd hh kind : Z) : Z :=
+  if kd =? 0 then
+    (if (hh =? ModX) && (kind =? Bridge) then 1 else 0) + (if (hh =? Supply) && (kind =? Bridge) then 1 else 0) +
+    (if (hh =? Supply) && (kind =? Base) then 1 else 0)
+  else if kd =? 1 then
+    (if (hh =? ModX) && (kind =? Bridge) then -1 else 0) + (if (hh =? Supply) && (kind =? Bridge) then -1 else 0) +
+    (if (hh =? Supply) && (kind =? Base) then 1 else 0)
+  else (if (hh =? ModX) && (kind =? Base) then -1 else 0).
+Definition Mv (h : Z) (tot : Z -> Z) (k : key) : Z :=
+  let '(hh, kind, t) := k in if (hh =? h) && (kind =? Base) then tot t else 0.
+Definition Dm (kf : Z -> Z) (tot : Z -> Z) (k : key) : Z :=
+  let '(hh, kind, t) := k in tot t * Cm (kf t) hh kind.
+Definition D (kf : Z -> Z) (h : Z) (tot : Z -> Z) (k : key) : Z := Mv h tot k + Dm kf tot k.
 
 Definition one (t a : Z) : Z -> Z := fun x => if t =? x then a else 0.
 
-Lemma ladd4_D l h t a k :
+Lemma D_split kf h tot k : D kf h tot k = Mv h tot k + Dm kf tot k.
+Proof. reflexivity. Qed.
+
+Ltac keycases :=
+  repeat match goal with |- context [?a =? ?b] => destruct (Z.eqb_spec a b); subst end;
+  cbn [andb]; try lia; try congruence.
+
+Lemma dep_delta_kind0 kf l h t a k : kf t = 0 ->
   ladd (ladd (ladd (ladd l (h, Base, t) a) (ModX, Bridge, t) a) (Supply, Bridge, t) a) (Supply, Base, t) a k
-  = l k + D h (one t a) k.
+  = l k + D kf h (one t a) k.
 Proof.
-  destruct k as [[hh kind] x]. unfold ladd, D, one, key_eqb.
-  repeat match goal with |- context [?a =? ?b] => destruct (Z.eqb_spec a b); subst end;
-    cbn [andb]; try lia; try congruence.
+  intros Hk. destruct k as [[hh kind] x]. unfold D, Mv, Dm, one.
+  destruct (Z.eqb_spec t x) as [->|Hne].
+  - rewrite Hk. unfold ladd, Cm, key_eqb, ModX, Supply, Base, Bridge. keycases.
+  - unfold ladd, key_eqb. destruct (Z.eqb_spec t x); [congruence|]. rewrite !andb_false_r. destruct ((hh =? h) && (kind =? Base)); lia.
+Qed.
+Lemma dep_delta_kind1 kf l h t a k : kf t = 1 ->
+  ladd (ladd (ladd (ladd l (h, Base, t) a) (ModX, Bridge, t) (- a)) (Supply, Bridge, t) (- a)) (Supply, Base, t) a k
+  = l k + D kf h (one t a) k.
+Proof.
+  intros Hk. destruct k as [[hh kind] x]. unfold D, Mv, Dm, one.
+  destruct (Z.eqb_spec t x) as [->|Hne].
+  - rewrite Hk. unfold ladd, Cm, key_eqb, ModX, Supply, Base, Bridge. keycases.
+  - unfold ladd, key_eqb. destruct (Z.eqb_spec t x); [congruence|]. rewrite !andb_false_r. destruct ((hh =? h) && (kind =? Base)); lia.
+Qed.
+Lemma dep_delta_kindfx kf l h t a k : kf t <> 0 -> kf t <> 1 ->
+  ladd (ladd l (h, Base, t) a) (ModX, Base, t) (- a) k = l k + D kf h (one t a) k.
+Proof.
+  intros H0 H1. destruct k as [[hh kind] x]. unfold D, Mv, Dm, one.
+  destruct (Z.eqb_spec t x) as [->|Hne].
+  - unfold Cm. destruct (Z.eqb_spec (kf x) 0); [congruence|]. destruct (Z.eqb_spec (kf x) 1); [congruence|].
+    unfold ladd, key_eqb, ModX, Base. keycases.
+  - unfold ladd, key_eqb. destruct (Z.eqb_spec t x); [congruence|]. rewrite !andb_false_r. destruct ((hh =? h) && (kind =? Base)); lia.
+Qed.
+(* the withdrawal chains are the same deltas negated *)
+Lemma wd_delta_kind0 kf l h t a k : kf t = 0 ->
+  ladd (ladd (ladd (ladd l (h, Base, t) (- a)) (ModX, Bridge, t) (- a)) (Supply, Bridge, t) (- a)) (Supply, Base, t) (- a) k
+  = l k - D kf h (one t a) k.
+Proof.
+  intros Hk. rewrite (dep_delta_kind0 kf l h t (- a) k Hk). destruct k as [[hh kind] x]. unfold D, Mv, Dm, one.
+  destruct (t =? x); destruct ((hh =? h) && (kind =? Base)); lia.
+Qed.
+Lemma wd_delta_kind1 kf l h t a k : kf t = 1 ->
+  ladd (ladd (ladd (ladd l (h, Base, t) (- a)) (ModX, Bridge, t) a) (Supply, Bridge, t) a) (Supply, Base, t) (- a) k
+  = l k - D kf h (one t a) k.
+Proof.
+  intros Hk. replace a with (- - a) at 2 3 by lia. rewrite (dep_delta_kind1 kf l h t (- a) k Hk).
+  destruct k as [[hh kind] x]. unfold D, Mv, Dm, one.
+  destruct (t =? x); destruct ((hh =? h) && (kind =? Base)); lia.
+Qed.
+Lemma wd_delta_kindfx kf l h t a k : kf t <> 0 -> kf t <> 1 ->
+  ladd (ladd l (h, Base, t) (- a)) (ModX, Base, t) a k = l k - D kf h (one t a) k.
+Proof.
+  intros H0 H1. replace a with (- - a) at 2 by lia. rewrite (dep_delta_kindfx kf l h t (- a) k H0 H1).
+  destruct k as [[hh kind] x]. unfold D, Mv, Dm, one.
+  destruct (t =? x); destruct ((hh =? h) && (kind =? Base)); lia.
 Qed.
 
-Lemma ladd4_D_neg l h t a k :
-  ladd (ladd (ladd (ladd l (h, Base, t) (- a)) (Supply, Base, t) (- a)) (ModX, Bridge, t) (- a)) (Supply, Bridge, t) (- a) k
-  = l k - D h (one t a) k.
+Lemma D_add kf h f g k : D kf h (fun x => f x + g x) k = D kf h f k + D kf h g k.
 Proof.
-  destruct k as [[hh kind] x]. unfold ladd, D, one, key_eqb.
-  repeat match goal with |- context [?a =? ?b] => destruct (Z.eqb_spec a b); subst end;
-    cbn [andb]; try lia; try congruence.
+  destruct k as [[hh kind] x]. unfold D, Mv, Dm. destruct ((hh =? h) && (kind =? Base)); ring.
 Qed.
 
-Lemma D_add h f g k : D h (fun x => f x + g x) k = D h f k + D h g k.
-Proof.
-  destruct k as [[hh kind] x]. unfold D.
-  repeat match goal with |- context [if ?c then _ else _] => destruct c end; lia.
-Qed.
+Lemma D_ext kf h f g k : (forall x, f x = g x) -> D kf h f k = D kf h g k.
+Proof. intros H. destruct k as [[hh kind] x]. unfold D, Mv, Dm. rewrite H. reflexivity. Qed.
 
-Lemma D_ext h f g k : (forall x, f x = g x) -> D h f k = D h g k.
-Proof. intros H. destruct k as [[hh kind] x]. unfold D. rewrite !H. reflexivity. Qed.
+Lemma D_zero kf h k : D kf h (fun _ => 0) k = 0.
+Proof. destruct k as [[hh kind] x]. unfold D, Mv, Dm. destruct ((hh =? h) && (kind =? Base)); ring. Qed.
 
 Lemma total_cons t a r x : total ((t, a) :: r) x = one t a x + total r x.
 Proof. reflexivity. Qed.
@@ -152,16 +202,16 @@ Proof. reflexivity. Qed.
 Definition same_rest (a b : bst) : Prop :=
   (forall n, pendingc a n = pendingc b n) /\ outcalls a = outcalls b /\ next_id a = next_id b /\
   evmst a = evmst b /\ (forall t, registered a t = registered b t) /\ (forall t, enabled a t = enabled b t) /\
-  timeout_ok a = timeout_ok b.
+  timeout_ok a = timeout_ok b /\ (forall t, tkind a t = tkind b t).
 
 Lemma same_rest_refl a : same_rest a a.
 Proof. repeat split. Qed.
 
 Lemma same_rest_trans a b c : same_rest a b -> same_rest b c -> same_rest a c.
 Proof.
-  intros (A1&A2&A3&A4&A5&A6&A7) (B1&B2&B3&B4&B5&B6&B7).
+  intros (A1&A2&A3&A4&A5&A6&A7&A8) (B1&B2&B3&B4&B5&B6&B7&B8).
   unfold same_rest. repeat split; intros; try congruence;
-    try (rewrite A1; apply B1); try (rewrite A5; apply B5); try (rewrite A6; apply B6).
+    try (rewrite A1; apply B1); try (rewrite A5; apply B5); try (rewrite A6; apply B6); try (rewrite A8; apply B8).
 Qed.
 
 Lemma same_rest_set_bal s l : same_rest (set_bal s l) s.
@@ -170,58 +220,71 @@ Proof. repeat split. Qed.
 (* ------------------------------------------------------------------------------------------ *)
 (** * deposits *)
 
-Lemma deposit_effect h tokens : forall s,
-  (forall t a, In (t, a) tokens -> registered s t = true) ->
-  exists s', run_steps (map (deposit_one h) tokens) s = Ok s' /\
-             (forall k, bal s' k = bal s k + D h (total tokens) k) /\ same_rest s' s.
+(* a deposit loop that returns nil has credited, for every token kind, exactly the closed form *)
+Lemma deposit_effect kf h tokens : forall s s',
+  (forall t, tkind s t = kf t) ->
+  run_steps (map (deposit_one h) tokens) s = Ok s' ->
+  (forall k, bal s' k = bal s k + D kf h (total tokens) k) /\ same_rest s' s.
 Proof.
-  induction tokens as [|[t a] r IH]; intros s Hreg.
-  - exists s. cbn. split; [reflexivity|]. split; [|apply same_rest_refl].
-    intros [[hh kind] x]. unfold D. cbn.
-    repeat match goal with |- context [if ?c then _ else _] => destruct c end; lia.
-  - cbn [map run_steps deposit_one]. rewrite (Hreg t a) by (left; reflexivity). cbn [negb bind].
-    set (s1 := set_bal s _).
-    destruct (IH s1) as (s' & Hrun & Hbal & Hrest).
-    { intros t' a' Hin. cbn. eapply Hreg. right. exact Hin. }
-    exists s'. split; [exact Hrun|]. split.
-    + intros k. rewrite Hbal. subst s1. cbn [bal set_bal]. rewrite ladd4_D.
-      rewrite (D_ext h (total ((t, a) :: r)) (fun x => one t a x + total r x) k) by (intros; apply total_cons).
+  induction tokens as [|[t a] r IH]; intros s s' Hkf H.
+  - cbn in H. inversion H; subst. split; [|apply same_rest_refl]. intros k. rewrite D_zero. lia.
+  - cbn [map run_steps deposit_one] in H.
+    destruct (negb (registered s t)); cbn [bind] in H; [discriminate|].
+    assert (Hstep : exists s1, run_steps (map (deposit_one h) r) s1 = Ok s' /\
+                     (forall k, bal s1 k = bal s k + D kf h (one t a) k) /\ same_rest s1 s).
+    { rewrite Hkf in H. destruct (Z.eqb_spec (kf t) 0) as [K0|K0].
+      - cbn [bind] in H. eexists. split; [exact H|]. split; [|apply same_rest_set_bal].
+        intros k. cbn [bal set_bal]. apply dep_delta_kind0. exact K0.
+      - destruct (Z.eqb_spec (kf t) 1) as [K1|K1].
+        + destruct (bal s (ModX, Bridge, t) <? a); cbn [bind] in H; [discriminate|].
+          eexists. split; [exact H|]. split; [|apply same_rest_set_bal].
+          intros k. cbn [bal set_bal]. apply dep_delta_kind1. exact K1.
+        + destruct (bal s (ModX, Base, t) <? a); cbn [bind] in H; [discriminate|].
+          eexists. split; [exact H|]. split; [|apply same_rest_set_bal].
+          intros k. cbn [bal set_bal]. apply dep_delta_kindfx; assumption. }
+    destruct Hstep as (s1 & Hrun & Hb1 & Hr1).
+    assert (Hkf1 : forall x, tkind s1 x = kf x).
+    { intros x. destruct Hr1 as (_&_&_&_&_&_&_&T). rewrite T. apply Hkf. }
+    destruct (IH s1 s' Hkf1 Hrun) as [Hbal Hrest]. split.
+    + intros k. rewrite Hbal, Hb1.
+      rewrite (D_ext kf h (total ((t, a) :: r)) (fun x => one t a x + total r x) k) by (intros; apply total_cons).
       rewrite D_add. lia.
-    + eapply same_rest_trans; [exact Hrest|]. subst s1. apply same_rest_set_bal.
-Qed.
-
-(* a deposit loop that fails does so at the first unregistered token; the handler then returns the error *)
-Lemma deposit_fails h tokens : forall s,
-  (exists t a, In (t, a) tokens /\ registered s t = false) ->
-  exists s', run_steps (map (deposit_one h) tokens) s = Err s'.
-Proof.
-  induction tokens as [|[t a] r IH]; intros s (t0 & a0 & Hin & Hreg); [destruct Hin|].
-  cbn [map run_steps deposit_one].
-  destruct (registered s t) eqn:E; cbn [negb bind].
-  - destruct Hin as [Heq|Hin]; [inversion Heq; subst; congruence|].
-    apply IH. exists t0, a0. split; [exact Hin|exact Hreg].
-  - eexists. reflexivity.
+    + eapply same_rest_trans; eauto.
 Qed.
 
 (* ------------------------------------------------------------------------------------------ *)
 (** * withdrawals *)
 
-Lemma withdraw_effect h coins : forall s s',
-  run_steps (map (withdraw_one h) coins) s = Ok s' ->
-  (forall k, bal s' k = bal s k - D h (total coins) k) /\ same_rest s' s.
+Lemma withdraw_step kf h t a s :
+  (forall x, tkind s x = kf x) -> a <= bal s (h, Base, t) ->
+  exists s1, withdraw_one h (t, a) s = Ok s1 /\ (forall k, bal s1 k = bal s k - D kf h (one t a) k) /\ same_rest s1 s.
 Proof.
-  induction coins as [|[t a] r IH]; intros s s' H.
-  - cbn in H. inversion H; subst. split; [|apply same_rest_refl].
-    intros [[hh kind] x]. unfold D. cbn.
-    repeat match goal with |- context [if ?c then _ else _] => destruct c end; lia.
-  - cbn [map run_steps withdraw_one] in H.
-    destruct (bal s (h, Base, t) <? a) eqn:E; cbn [bind] in H; [discriminate|].
-    set (s1 := set_bal s _) in H.
-    destruct (IH s1 s' H) as [Hbal Hrest]. split.
-    + intros k. rewrite Hbal. subst s1. cbn [bal set_bal]. rewrite ladd4_D_neg.
-      rewrite (D_ext h (total ((t, a) :: r)) (fun x => one t a x + total r x) k) by (intros; apply total_cons).
+  intros Hkf Ha. unfold withdraw_one. destruct (Z.ltb_spec (bal s (h, Base, t)) a); [lia|]. rewrite Hkf.
+  destruct (Z.eqb_spec (kf t) 0) as [K0|K0]; [|destruct (Z.eqb_spec (kf t) 1) as [K1|K1]];
+    eexists; (split; [reflexivity|]); (split; [|apply same_rest_set_bal]); intros k; cbn [bal set_bal].
+  - apply wd_delta_kind0. exact K0.
+  - apply wd_delta_kind1. exact K1.
+  - apply wd_delta_kindfx; assumption.
+Qed.
+
+Lemma withdraw_effect kf h coins : forall s s',
+  (forall t, tkind s t = kf t) ->
+  run_steps (map (withdraw_one h) coins) s = Ok s' ->
+  (forall k, bal s' k = bal s k - D kf h (total coins) k) /\ same_rest s' s.
+Proof.
+  induction coins as [|[t a] r IH]; intros s s' Hkf H.
+  - cbn in H. inversion H; subst. split; [|apply same_rest_refl]. intros k. rewrite D_zero. lia.
+  - cbn [map run_steps] in H.
+    destruct (Z.ltb_spec (bal s (h, Base, t)) a) as [Hlt|Hge].
+    { unfold withdraw_one in H. destruct (Z.ltb_spec (bal s (h, Base, t)) a); [|lia]. cbn [bind] in H. discriminate. }
+    destruct (withdraw_step kf h t a s Hkf Hge) as (s1 & E1 & Hb1 & Hr1). rewrite E1 in H. cbn [bind] in H.
+    assert (Hkf1 : forall x, tkind s1 x = kf x).
+    { intros x. destruct Hr1 as (_&_&_&_&_&_&_&T). rewrite T. apply Hkf. }
+    destruct (IH s1 s' Hkf1 H) as [Hbal Hrest]. split.
+    + intros k. rewrite Hbal, Hb1.
+      rewrite (D_ext kf h (total ((t, a) :: r)) (fun x => one t a x + total r x) k) by (intros; apply total_cons).
       rewrite D_add. lia.
-    + eapply same_rest_trans; [exact Hrest|]. subst s1. apply same_rest_set_bal.
+    + eapply same_rest_trans; eauto.
 Qed.
 
 (* keys strictly increasing (what sdk.Coins guarantees) *)
@@ -231,25 +294,28 @@ Fixpoint ssorted (cs : list (Z * Z)) : Prop :=
   | (t, _) :: r => (forall t' a', In (t', a') r -> t < t') /\ ssorted r
   end.
 
-Lemma withdraw_succeeds h coins : forall s,
+Lemma D_other_token kf h t a t' : 0 <= h -> t <> t' -> D kf h (one t a) (h, Base, t') = 0.
+Proof.
+  intros Hh Hne. unfold D, Mv, Dm, one. destruct (Z.eqb_spec t t'); [congruence|]. rewrite Z.eqb_refl. cbn. lia.
+Qed.
+
+Lemma withdraw_succeeds kf h coins : forall s,
+  (forall t, tkind s t = kf t) ->
   0 <= h -> ssorted coins ->
   (forall t a, In (t, a) coins -> a <= bal s (h, Base, t)) ->
   exists s', run_steps (map (withdraw_one h) coins) s = Ok s'.
 Proof.
-  induction coins as [|[t a] r IH]; intros s Hh Hs Hb.
+  induction coins as [|[t a] r IH]; intros s Hkf Hh Hs Hb.
   - eexists. reflexivity.
-  - cbn [map run_steps withdraw_one].
+  - cbn [map run_steps].
     assert (Ha : a <= bal s (h, Base, t)) by (apply Hb; left; reflexivity).
-    destruct (Z.ltb_spec (bal s (h, Base, t)) a); [lia|]. cbn [bind].
+    destruct (withdraw_step kf h t a s Hkf Ha) as (s1 & E1 & Hb1 & Hr1). rewrite E1. cbn [bind].
     destruct Hs as [Hlt Hs].
-    apply IH; [exact Hh|exact Hs|].
-    intros t' a' Hin. cbn [bal set_bal]. rewrite ladd4_D_neg.
-    assert (t < t') by (eapply Hlt; eauto).
-    assert (D h (one t a) (h, Base, t') = 0).
-    { unfold D, one, ModX, Supply, Base, Bridge.
-      repeat match goal with |- context [?a =? ?b] => destruct (Z.eqb_spec a b); subst end;
-        cbn [andb]; try lia. }
-    rewrite H1. specialize (Hb t' a' (or_intror Hin)). lia.
+    apply IH; [|exact Hh|exact Hs|].
+    + intros x. destruct Hr1 as (_&_&_&_&_&_&_&T). rewrite T. apply Hkf.
+    + intros t' a' Hin. rewrite Hb1.
+      assert (t < t') by (eapply Hlt; eauto).
+      rewrite D_other_token by lia. specialize (Hb t' a' (or_intror Hin)). lia.
 Qed.
 
 (* ------------------------------------------------------------------------------------------ *)
@@ -354,17 +420,6 @@ Qed.
 (* ------------------------------------------------------------------------------------------ *)
 (** * hand-over of the deposit (bank SendCoins receiver -> refund address) *)
 
-Definition Mv (h : Z) (tot : Z -> Z) (k : key) : Z :=
-  let '(hh, kind, t) := k in if (hh =? h) && (kind =? Base) then tot t else 0.
-Definition Dm (tot : Z -> Z) (k : key) : Z :=
-  let '(hh, kind, t) := k in
-  (if (hh =? ModX) && (kind =? Bridge) then tot t else 0) +
-  (if (hh =? Supply) && (kind =? Bridge) then tot t else 0) +
-  (if (hh =? Supply) && (kind =? Base) then tot t else 0).
-
-Lemma D_split h tot k : D h tot k = Mv h tot k + Dm tot k.
-Proof. destruct k as [[hh kind] t]. unfold D, Mv, Dm. lia. Qed.
-
 Lemma Mv_add h f g k : Mv h (fun x => f x + g x) k = Mv h f k + Mv h g k.
 Proof. destruct k as [[hh kind] x]. unfold Mv. destruct ((hh =? h) && (kind =? Base)); lia. Qed.
 Lemma Mv_ext h f g k : (forall x, f x = g x) -> Mv h f k = Mv h g k.
@@ -451,10 +506,11 @@ Section BC.
     execute_claim call m s = Err e -> execute_claim_tx call m s = (s, false).
   Proof. intros H. unfold execute_claim_tx. eapply tx_err; eauto. Qed.
 
-  (* hand-over then refund from a state whose receiver holds the deposits: succeeds and nets to zero *)
-  Lemma hand_over_refund m s0 s1 :
+  (* hand-over then refund from a state whose receiver holds the deposits: succeeds and nets to zero, for every token kind *)
+  Lemma hand_over_refund kf m s0 s1 :
+    (forall t, tkind s0 t = kf t) ->
     0 <= receiver m -> 0 <= m_refund m ->
-    (forall k, bal s1 k = bal s0 k + D (receiver m) (total (m_tokens m)) k) -> same_rest s1 s0 ->
+    (forall k, bal s1 k = bal s0 k + D kf (receiver m) (total (m_tokens m)) k) -> same_rest s1 s0 ->
     (forall t, 0 <= bal s0 (receiver m, Base, t)) -> (forall t, 0 <= bal s0 (m_refund m, Base, t)) ->
     timeout_ok s0 = true ->
     exists s3, bind (hand_over m (base_coins (m_tokens m)) s1) (failed_refund m (base_coins (m_tokens m))) =
@@ -462,20 +518,16 @@ Section BC.
                                      oc_tokens := base_coins (m_tokens m); oc_event := m_nonce m |}) /\
                (forall k, bal s3 k = bal s0 k) /\ same_rest s3 s0.
   Proof.
-    intros Hr Hf Hbal1 Hrest1 Hnr Hnf Hto.
+    intros Hkf Hr Hf Hbal1 Hrest1 Hnr Hnf Hto.
     set (coins := base_coins (m_tokens m)) in *.
     assert (Hsorted : ssorted coins) by apply ssorted_base_coins.
     assert (Htot : forall t a, In (t, a) coins -> a = total (m_tokens m) t).
     { intros t a Hin. rewrite <- (ssorted_in_total _ Hsorted t a Hin). apply total_base_coins. }
-    assert (HDself : forall h t, 0 <= h -> D h (total (m_tokens m)) (h, Base, t) = total (m_tokens m) t).
-    { intros h t Hh. unfold D, ModX, Supply, Base, Bridge.
-      repeat match goal with |- context [?a =? ?b] => destruct (Z.eqb_spec a b) end; cbn [andb]; try lia; try congruence. }
-    assert (HDother : forall h h' t, 0 <= h -> 0 <= h' -> h <> h' -> D h (total (m_tokens m)) (h', Base, t) = 0).
-    { intros h h' t Hh Hh' Hne. unfold D, ModX, Supply, Base, Bridge.
-      repeat match goal with |- context [?a =? ?b] => destruct (Z.eqb_spec a b) end; cbn [andb]; try lia; try congruence. }
+    assert (HDself : forall h t, 0 <= h -> D kf h (total (m_tokens m)) (h, Base, t) = total (m_tokens m) t).
+    { intros h t Hh. unfold D, Mv, Dm, Cm, ModX, Supply, Base, Bridge. keycases. }
     (* phase 1: hand-over *)
     assert (H2 : exists s2, hand_over m coins s1 = Ok s2 /\
-                 (forall k, bal s2 k = bal s0 k + D (m_refund m) (total (m_tokens m)) k) /\ same_rest s2 s0).
+                 (forall k, bal s2 k = bal s0 k + D kf (m_refund m) (total (m_tokens m)) k) /\ same_rest s2 s0).
     { unfold hand_over. destruct (Z.eqb_spec (receiver m) (m_refund m)) as [Heq|Hne]; cbn [orb].
       - exists s1. split; [reflexivity|]. split; [|exact Hrest1]. intros k. rewrite Hbal1, Heq. reflexivity.
       - destruct (match coins with [] => true | _ => false end) eqn:Eemp.
@@ -483,10 +535,7 @@ Section BC.
           exists s1. split; [reflexivity|]. split; [|exact Hrest1]. intros k. rewrite Hbal1.
           assert (Hz : forall t, total (m_tokens m) t = 0).
           { intros t. rewrite <- total_base_coins. fold coins. rewrite Ec. reflexivity. }
-          rewrite (D_ext _ _ (fun _ => 0) k Hz), (D_ext (m_refund m) _ (fun _ => 0) k Hz).
-          assert (HD0 : forall h, D h (fun _ => 0) k = 0).
-          { intros h. destruct k as [[hh kind] y]. unfold D. repeat match goal with |- context [if ?c then _ else _] => destruct c end; reflexivity. }
-          rewrite !HD0. reflexivity.
+          rewrite (D_ext kf _ _ (fun _ => 0) k Hz), (D_ext kf (m_refund m) _ (fun _ => 0) k Hz), !D_zero. reflexivity.
         + destruct (move_succeeds (receiver m) (m_refund m) coins s1 Hne Hsorted) as (s2 & Hmv).
           { intros t a Hin. rewrite Hbal1, (Htot t a Hin), HDself by exact Hr. specialize (Hnr t). lia. }
           rewrite Hmv.
@@ -497,40 +546,42 @@ Section BC.
           rewrite (Mv_ext (m_refund m) (total coins) (total (m_tokens m)) k) by (intros; apply total_base_coins).
           rewrite !D_split. lia. }
     destruct H2 as (s2 & Hho & Hbal2 & Hrest2). rewrite Hho. cbn [bind].
+    assert (Hkf2 : forall t, tkind s2 t = kf t).
+    { intros t. destruct Hrest2 as (_&_&_&_&_&_&_&T). rewrite T. apply Hkf. }
     (* phase 2: the refund withdraws from the refund address *)
-    destruct (withdraw_succeeds (m_refund m) coins s2 Hf Hsorted) as (s3 & Hw).
+    destruct (withdraw_succeeds kf (m_refund m) coins s2 Hkf2 Hf Hsorted) as (s3 & Hw).
     { intros t a Hin. rewrite Hbal2, (Htot t a Hin), HDself by exact Hf. specialize (Hnf t). lia. }
-    destruct (withdraw_effect _ _ _ _ Hw) as [Hbal3 Hrest3].
+    destruct (withdraw_effect kf _ _ _ _ Hkf2 Hw) as [Hbal3 Hrest3].
     assert (Hrest30 : same_rest s3 s0) by (eapply same_rest_trans; eauto).
     exists s3. unfold failed_refund. rewrite Hw. cbn [bind].
-    destruct Hrest30 as (P&O&N&E&R&En&T). rewrite T, Hto. split; [reflexivity|]. split.
+    destruct Hrest30 as (P&O&N&E&R&En&T&K). rewrite T, Hto. split; [reflexivity|]. split.
     - intros k. rewrite Hbal3, Hbal2.
-      rewrite (D_ext (m_refund m) (total coins) (total (m_tokens m)) k) by (intros; apply total_base_coins). lia.
+      rewrite (D_ext kf (m_refund m) (total coins) (total (m_tokens m)) k) by (intros; apply total_base_coins). lia.
     - repeat split; assumption.
   Qed.
 
-  (* T2 (the property, unguarded): a failed inner step ends in exactly the designated outcome — claim consumed, one
-     refund record for the deposited amounts, every balance as before, nothing the failed step wrote *)
-  Lemma bch_designated m s c :
+  (* T2 (the property, unguarded, every token kind): a failed inner step ends in exactly the designated outcome —
+     claim consumed, one refund record for the deposited amounts, every balance as before, nothing the failed step wrote *)
+  Lemma bch_designated m s c s1 :
     0 <= receiver m -> 0 <= m_refund m ->
-    (forall t a, In (t, a) (m_tokens m) -> registered s t = true) ->
     (forall t, 0 <= bal s (receiver m, Base, t)) -> (forall t, 0 <= bal s (m_refund m, Base, t)) ->
     timeout_ok s = true -> pendingc s (m_nonce m) = true ->
-    (forall s1, run_steps (map (deposit_one (receiver m)) (m_tokens m)) (del_pending s (m_nonce m)) = Ok s1 ->
-                bridge_call_evm call m (base_coins (m_tokens m)) s1 = Err c) ->
+    (* the deposits went through (tokens known; for module-held kinds the module could pay) … *)
+    run_steps (map (deposit_one (receiver m)) (m_tokens m)) (del_pending s (m_nonce m)) = Ok s1 ->
+    (* … and the inner step failed, wherever *)
+    bridge_call_evm call m (base_coins (m_tokens m)) s1 = Err c ->
     exists s', execute_claim_tx call m s = (s', true) /\ bst_eq s' (bc_designated m s).
   Proof.
-    intros Hr Hf Hreg Hnr Hnf Hto Hpend Hfail.
-    set (s0 := del_pending s (m_nonce m)).
-    assert (Hreg0 : forall t a, In (t, a) (m_tokens m) -> registered s0 t = true) by (intros; cbn; eauto).
-    destruct (deposit_effect (receiver m) (m_tokens m) s0 Hreg0) as (s1 & Hdep & Hbal1 & Hrest1).
-    destruct (hand_over_refund m s0 s1 Hr Hf Hbal1 Hrest1) as (s3 & Hres & Hbal3 & Hrest3); try assumption.
+    intros Hr Hf Hnr Hnf Hto Hpend Hdep Hfail.
+    set (s0 := del_pending s (m_nonce m)) in *.
+    destruct (deposit_effect (tkind s0) (receiver m) (m_tokens m) s0 s1 (fun _ => eq_refl) Hdep) as (Hbal1 & Hrest1).
+    destruct (hand_over_refund (tkind s0) m s0 s1 (fun _ => eq_refl) Hr Hf Hbal1 Hrest1) as (s3 & Hres & Hbal3 & Hrest3); try assumption.
     eexists. split.
     - unfold execute_claim_tx, tx, execute_claim, branch, commit. rewrite Hpend. fold s0.
-      rewrite (bch_inner_discarded m s0 s1 c Hdep (Hfail s1 Hdep)), Hres. reflexivity.
-    - destruct Hrest3 as (P&O&N&E&R&En&T).
+      rewrite (bch_inner_discarded m s0 s1 c Hdep Hfail), Hres. reflexivity.
+    - destruct Hrest3 as (P&O&N&E&R&En&T&K).
       unfold bc_designated. fold s0. unfold bst_eq.
-      cbn [bal outcalls next_id evmst pendingc add_outcall registered enabled timeout_ok].
+      cbn [bal outcalls next_id evmst pendingc add_outcall registered enabled timeout_ok tkind].
       repeat split; try assumption; try congruence.
   Qed.
 End BC.
@@ -544,7 +595,7 @@ Definition execute_claim_tx_prefix (call : bst -> result bst) (m : bcmsg) (s : b
 Definition wit_bal : ledger := fun k => if key_eqb k (2, Base, 0) then 10 else 0.
 Definition wit_state : bst :=
   {| bal := wit_bal; registered := fun _ => true; enabled := fun _ => true;
-     pendingc := fun n => n =? 7; outcalls := []; next_id := 1; timeout_ok := true; evmst := 0 |}.
+     pendingc := fun n => n =? 7; outcalls := []; next_id := 1; timeout_ok := true; evmst := 0; tkind := fun t => if t =? 5 then 1 else if t =? -1 then 2 else 0 |}.
 (* receiver (to) = contract 1 that reverts after writing its storage; refund address 2 owns 10 of the token *)
 Definition wit_msg : bcmsg :=
   {| m_nonce := 7; m_sender := 3; m_refund := 2; m_to := 1; m_to_is_contract := true; m_sendcallto := false;
@@ -552,7 +603,7 @@ Definition wit_msg : bcmsg :=
 Definition wit_call : bst -> result bst := fun c => Err (set_evmst c 99).
 Definition wit_state_poor : bst :=
   {| bal := fun _ => 0; registered := fun _ => true; enabled := fun _ => true;
-     pendingc := fun n => n =? 7; outcalls := []; next_id := 1; timeout_ok := true; evmst := 0 |}.
+     pendingc := fun n => n =? 7; outcalls := []; next_id := 1; timeout_ok := true; evmst := 0; tkind := fun t => if t =? 5 then 1 else if t =? -1 then 2 else 0 |}.
 
 Lemma prefix_refuted_witness :
   (let (post, ok) := execute_claim_tx_prefix wit_call wit_msg wit_state in
@@ -593,9 +644,21 @@ Lemma c18_nonvacuous :
   (let (post, ok) := execute_claim_tx wit_call nv_msg2 wit_state_poor in
    ok = true /\ bal post (1, Base, 0) = 0 /\ bal post (2, Base, 1) = 0 /\ evmst post = 0 /\
    map oc_refund (outcalls post) = [2] /\ pendingc post 7 = false) /\
+  (* every token kind in one claim: FX (-1, module-held), a module-owned pair (0), an externally owned pair (5, module-held
+     bridge tokens); the callee writes and reverts; refund address <> receiver *)
+  (let s := {| bal := fun k => if key_eqb k (ModX, Base, -1) then 100 else if key_eqb k (ModX, Bridge, 5) then 100 else 0;
+               registered := fun _ => true; enabled := fun _ => true;
+               pendingc := fun n => n =? 7; outcalls := []; next_id := 1; timeout_ok := true; evmst := 0;
+               tkind := fun t => if t =? 5 then 1 else if t =? -1 then 2 else 0 |} in
+   let m := {| m_nonce := 7; m_sender := 3; m_refund := 2; m_to := 1; m_to_is_contract := true; m_sendcallto := false;
+               m_tokens := [(5, 6); (-1, 4); (0, 10); (5, 1)] |} in
+   let (post, ok) := execute_claim_tx wit_call m s in
+   ok = true /\ bal post (ModX, Base, -1) = 100 /\ bal post (ModX, Bridge, 5) = 100 /\ bal post (1, Base, -1) = 0 /\
+   bal post (2, Base, 5) = 0 /\ bal post (Supply, Base, 5) = 0 /\ evmst post = 0 /\
+   map oc_tokens (outcalls post) = [[(-1, 4); (0, 10); (5, 7)]]) /\
   (* a disabled pair at the second coin fails inside the cache after the first conversion was written *)
   (let s := {| bal := fun _ => 0; registered := fun _ => true; enabled := fun t => t =? 0;
-               pendingc := fun n => n =? 7; outcalls := []; next_id := 1; timeout_ok := true; evmst := 0 |} in
+               pendingc := fun n => n =? 7; outcalls := []; next_id := 1; timeout_ok := true; evmst := 0; tkind := fun t => if t =? 5 then 1 else if t =? -1 then 2 else 0 |} in
    let (post, ok) := execute_claim_tx (fun c => Ok c) nv_msg2 s in
    ok = true /\ bal post (1, Erc, 0) = 0 /\ bal post (1, Base, 0) = 0 /\ length (outcalls post) = 1%nat) /\
   (* generic boundaries on a counter: handler / message / hook that write 1 then fail *)
